@@ -381,3 +381,42 @@ int sched_getaffinity(pid_t pid, size_t cpusetsize, cpu_set_t *mask) {
     fclose(f);
     return 0;
 }
+
+/* The set side of the same simulated kernel (check C18, "bigkernel" set cases): with
+ * VF_AFFINITY_FILE naming "<nbits> ...", sched_setaffinity() behaves like a kernel whose
+ * nr_cpu_ids is <nbits>: it reads min(cpusetsize, nbits/8) bytes of the caller's mask,
+ * treats the rest as zero, fails with EINVAL when no possible CPU is left, and otherwise
+ * makes exactly those CPUs the mask that sched_getaffinity() above reports.
+ */
+int sched_setaffinity(pid_t pid, size_t cpusetsize, const cpu_set_t *mask) {
+    static int (*real)(pid_t, size_t, const cpu_set_t *) = NULL;
+    const char *path = getenv("VF_AFFINITY_FILE");
+    FILE *f;
+    long nbits, cpu, n = 0;
+    const unsigned char *bytes = (const unsigned char *)mask;
+    if (real == NULL)
+        real = (int (*)(pid_t, size_t, const cpu_set_t *))dlsym(RTLD_NEXT, "sched_setaffinity");
+    if (path == NULL || *path == '\0' || (f = fopen(path, "r")) == NULL)
+        return real(pid, cpusetsize, mask);
+    if (fscanf(f, "%ld", &nbits) != 1) {
+        fclose(f);
+        return real(pid, cpusetsize, mask);
+    }
+    fclose(f);
+    for (cpu = 0; cpu < nbits && (size_t)(cpu / 8) < cpusetsize; cpu++)
+        if (bytes[cpu / 8] & (1u << (cpu % 8)))
+            n++;
+    if (n == 0) {
+        errno = EINVAL;
+        return -1;
+    }
+    if ((f = fopen(path, "w")) == NULL)
+        return -1;
+    fprintf(f, "%ld", nbits);
+    for (cpu = 0; cpu < nbits && (size_t)(cpu / 8) < cpusetsize; cpu++)
+        if (bytes[cpu / 8] & (1u << (cpu % 8)))
+            fprintf(f, " %ld", cpu);
+    fprintf(f, "\n");
+    fclose(f);
+    return 0;
+}
